@@ -69,6 +69,9 @@ def one(sid, args):
         if args.all_props:
             m = json.load(open(os.path.join(VERIF, "MANIFEST.json")))
             props = [c["property_id"] for c in m["checks"]]
+        for q in [x for x in args.props.split(",") if x]:
+            if q not in props:
+                props.append(q)
         res["checks"] = {}
         for p in props:
             env = dict(os.environ, TEAAL_REPO=tree, VERIF_EVIDENCE_DIR=os.path.join(scratch, "evidence"),
@@ -81,7 +84,7 @@ def one(sid, args):
             res["checks"][p] = {"rc": rc, "violations": len(vio), "detected": bool(rc == 1 and vio), "wall_s": round(time.time() - t0, 1),
                                 "no_failing_input_only": bool(vio) and all(v.endswith("no-failing-input-found") for v in vio),
                                 "first_what": (whats[0][:500] if whats else ""), "tail": out[-300:] if not vio else ""}
-        res["detected"] = res["checks"][prop]["detected"]
+        res["detected"] = res["checks"][prop]["detected"] or (bool(args.props) and any(r["detected"] for r in res["checks"].values()))
         res["detected_by"] = sorted(p for p, r in res["checks"].items() if r["detected"])
     finally:
         if args.in_place:
@@ -99,6 +102,7 @@ def main():
     ap.add_argument("ids", nargs="*")
     ap.add_argument("--tier", default="quick")
     ap.add_argument("--all-props", action="store_true")
+    ap.add_argument("--props", default="", help="comma-separated extra properties whose checks are also run")
     ap.add_argument("--tests", action="store_true")
     ap.add_argument("--in-place", action="store_true")
     ap.add_argument("--jobs", type=int, default=1)
